@@ -626,6 +626,10 @@ def _node_representer(dumper, node):
 
     metadata = { key: value for key, value in metadata.items() if key not in dumper.exclude_metadata }
     child_metadata = { **parent_metadata, **metadata } # what this node hands down, including a flag written as a simple tag below
+    if isinstance(node, ComposedNode):
+        handed_delete = node._get_child_kwargs().get('implicit_delete') # lists and function nodes hand down their own default
+        if handed_delete is not None:
+            child_metadata['delete'] = handed_delete
 
     # try to use simple standard tag rather then encoded metadata
     # this is possible if we only have one special thing to handle
